@@ -3,9 +3,18 @@
 Theorems: FinVerif/Props/C01.lean — deposit_knot_reprices (closed form), value_unchanged_by_later_knots (from C02's
 interp_local), bootstrap_reprices_all (induction over the instrument list: solver postcondition at each step => every
 instrument within tol on the FINAL curve), reprice_of_postcondition, bootstrap_df0, leap_deposit_not_repriced.
+Props/C01b (on the GENERATED IborDeposit._maturity_df/value, IborFRA.value/maturity_df, IborFuture.fra_rate/convexity):
+knot repricing identities, value = 0 <=> curve rate = quote, root = closed form, rate-error bounds, sign / monotonicity.
+Props/C01c (C06's swap model): value = N * annuity * (par - coupon), single-curve closed form, monotone objective, float leg
+linear in the forwards.  Props/C01d/e (Model/C01.lean = the text of _build_curve_using_1d_solver): the deposit loop reprices
+every deposit (no solver assumption), closed-form FRA step, flat-forward monotone in the last knot, unique swap root, knot
+vector structure, df(curve date) = 1 and df > 0.
 Tie: the implementation's knot vector is fed to the C02 interpolation model (Driver/C02) and compared on a dense grid;
-closed-form deposit knots are recomputed from their formula.  Oracles (the executable property): every input
-instrument reprices on the built curve, df(curve date) = 1, df finite > 0 on a dense grid."""
+the bootstrap of every curve built with a local interpolant is REPLAYED by Model/C01 (Driver/C01, op BOOT: knot times, the
+closed-form knots, the branch each FRA took — observed by recording the calls of scipy's newton); the generated kernels and
+the FRA / swap objectives are compared with the implementation on every instrument of those curves.  Oracles (the executable
+property): every input instrument reprices on the built curve, df(curve date) = 1, df finite > 0 on a dense grid; the
+implementation's own value / pv01 / swap_rate / market_rate satisfy the identities proved about the model."""
 import copy
 import io
 import math
@@ -19,8 +28,9 @@ import dates as D   # noqa: E402
 from floatcmp import f2b, b2f, close  # noqa: E402
 from parallel import driver_parallel  # noqa: E402
 
-PROPS = ['FinVerif.Props.C01']
-DRIVERS = ['FinVerif.Driver.C02']
+PROPS = ['FinVerif.Props.C01', 'FinVerif.Props.C01b', 'FinVerif.Props.C01c', 'FinVerif.Props.C01d', 'FinVerif.Props.C01e']
+DRIVERS = ['FinVerif.Driver.C02', 'FinVerif.Driver.C01']
+GEN = ['RatesF', 'RatesR']
 TOL = 1e-8          # value / notional, sequential bootstrap (newton tol 1e-10)
 LS_TOL = 1e-6       # value / notional, global least-squares refit of the non-local interpolators
 RULE = ('seeded quote sets in three regimes cycled per case (positive rates -1 %..+12 %; EUR-2021 style negative rates: deposits/FRAs/'
@@ -54,7 +64,7 @@ def touches_leap(v, d):
 
 
 def run(ctx):
-    drivers_ok = C.lean_stage(ctx, [], PROPS, DRIVERS, extra_files=['FinVerif/Model/C02.lean'])
+    drivers_ok = C.lean_stage(ctx, GEN, PROPS, DRIVERS, extra_files=['FinVerif/Model/C02.lean', 'FinVerif/Model/C01.lean'])
     C.import_financepy()
     import numpy as np
     import warnings
@@ -159,6 +169,165 @@ def run(ctx):
         return v, settle, depos, fras, swaps, desc, (fr, sdc, sw_ten)
 
     ops, impl, metas = [], [], []
+
+    # ------------------------------------------------------------------ correspondence with Model/C01 + Gen/RatesF (Driver/C01)
+    ops1 = []           # (op line, callback(answer))
+    newton_log = []     # id(instrument) of every call of scipy's newton during the build in progress
+    import scipy.optimize as _so
+    _orig_newton = _so.newton
+
+    def _newton_rec(func, *a, **k):
+        try:
+            newton_log.append(id(k['args'][-1]))
+        except Exception:  # noqa: BLE001
+            pass
+        return _orig_newton(func, *a, **k)
+    _so.newton = _newton_rec
+    ISDA = DCT.ACT_ACT_ISDA
+
+    def ser(d):
+        return int(d.excel_dt)
+
+    def fdf(c, d):
+        return float(np.asarray(c.df(d)).ravel()[0])
+
+    def tbl(c, dts):
+        u = sorted({ser(d): d for d in dts}.items())
+        return str(len(u)) + ' ' + ' '.join(f'{k_} {f2b(fdf(c, d))}' for k_, d in u)
+
+    def model_cmp(what, me, impl_val, rtol, atol):
+        def cb(o):
+            if o.startswith('E:') or o == 'bad-op' or not close(b2f(o), impl_val, rtol=rtol, atol=atol):
+                if len([b for b in ctx.broken if b.startswith('correspondence: ' + what)]) < 3:
+                    ctx.broke(f'correspondence: {what}: model {o if (o.startswith("E:") or o == "bad-op") else b2f(o)} vs implementation {impl_val} on {me}')
+        return cb
+
+    def tie_curve(kind, curve, v, disc, deps_in, fras_in, swaps_in, desc, solved_ids):
+        """Replay the bootstrap of `curve` in Model/C01 and compare; compare the generated kernels / objectives with the
+        implementation on every input instrument; check the identities proved about the model on the implementation's own
+        numbers (direct oracles).  `disc` is the discount curve of an IborDualCurve (None otherwise)."""
+        m = curve._interp_type.value
+        Tk = [float(x_) for x_ in curve._times]
+        Dk = [float(x_) for x_ in curve._dfs]
+        ud, uf, us = list(curve.used_deposits), list(curve.used_fras), list(curve.used_swaps)
+        me = desc | {'curve': kind}
+        if len(Tk) != 1 + len(ud) + len(uf) + len(us):
+            ctx.violation(f'{kind}: number of knots is not 1 + number of used instruments', me | {'knots': len(Tk), 'used': [len(ud), len(uf), len(us)]},
+                          clause='knot-count')
+            return
+        parts = ['BOOT', str(m), str(len(ud))]
+        for x in ud:
+            parts += [f2b(yf(ISDA, v, x.start_dt)), f2b((x.maturity_dt.excel_dt - v.excel_dt) / 365.0), f2b(yf(x.dc_type, x.start_dt, x.maturity_dt)),
+                      f2b(x.deposit_rate)]
+        parts.append(str(len(uf)))
+        k = 1 + len(ud)
+        for x in uf:
+            parts += [f2b((x.start_dt.excel_dt - v.excel_dt) / 365.0), f2b((x.maturity_dt.excel_dt - v.excel_dt) / 365.0), f2b(yf(ISDA, v, x.start_dt)),
+                      f2b(yf(x.dc_type, x.start_dt, x.maturity_dt)), f2b(x.fra_rate), f2b(Dk[k])]
+            k += 1
+        parts.append(str(len(us)))
+        for x in us:
+            parts += [f2b((x.fixed_leg.payment_dts[-1].excel_dt - v.excel_dt) / 365.0), f2b(Dk[k])]
+            k += 1
+        impl_flags = ['0' if id(x) in solved_ids else '1' for x in uf]
+        n_closed = 1 + len(ud)
+
+        def cb_boot(o, Tk=Tk, Dk=Dk, impl_flags=impl_flags, nf=len(uf), me=me):
+            t = o.split()
+            bad = None
+            if o.startswith('E:') or o == 'bad-op' or len(t) < nf + 1 or len(t) != nf + 1 + 2 * int(t[nf]):
+                bad = f'model answered `{o[:60]}`'
+            else:
+                n = int(t[nf])
+                mt = [b2f(x_) for x_ in t[nf + 1:nf + 1 + n]]
+                md = [b2f(x_) for x_ in t[nf + 1 + n:]]
+                if t[:nf] != impl_flags:
+                    bad = f'FRA branches (1 = closed form) model {t[:nf]} vs implementation {impl_flags} (newton calls recorded)'
+                elif n != len(Tk) or any(not close(a_, b_, rtol=0, atol=1e-15) for a_, b_ in zip(mt, Tk)):
+                    bad = f'knot times model {mt} vs implementation {Tk}'
+                elif any(not close(a_, b_, rtol=1e-12, atol=0) for a_, b_ in zip(md, Dk)):
+                    bad = f'knot dfs model {md} vs implementation {Dk}'
+            if bad and len([b for b in ctx.broken if b.startswith('correspondence: bootstrap replay')]) < 3:
+                ctx.broke(f'correspondence: bootstrap replay (Model/C01) differs from {kind}: {bad} on {me}')
+        ops1.append((' '.join(parts), cb_boot))
+        ctx.count('model/bootstrap-replay', 1, sample=(me | {'knots': len(Tk), 'closed_form_fras': impl_flags.count('1')}) if not ops1[:-1] else None)
+        ctx.count('model/bootstrap-replay-closed-form-knots', n_closed - 1 + impl_flags.count('1'))
+        dsc = disc if disc is not None else curve
+        # ---- deposits: generated _maturity_df / value; identity value/N - 1 = acc (r - market_rate) dfM/dfS
+        for x in deps_in:
+            acc = yf(x.dc_type, x.start_dt, x.maturity_dt)
+            dfS, dfM = fdf(curve, x.start_dt), fdf(curve, x.maturity_dt)
+            ops1.append((f'DK {f2b(acc)} {f2b(x.deposit_rate)}', model_cmp('IborDeposit._maturity_df', me, x._maturity_df(), 1e-15, 0)))
+            iv = float(x.value(v, curve))
+            ops1.append((f'DV {ser(v)} {f2b(acc)} {f2b(dfS)} {f2b(dfM)} {f2b(x.deposit_rate)} {f2b(x.notional)} {ser(x.maturity_dt)}',
+                         model_cmp('IborDeposit.value', me, iv, 1e-14, 0)))
+            if acc == 0.0:
+                # e.g. a 1D deposit 30th -> 31st under 30E/360: zero accrual; valuation_details divides by it (observed, notes/C01.md)
+                tick('tie/zero-accrual-deposit')
+                ctx.count('model/deposit-kernels', 2)
+                continue
+            mr = float(x.valuation_details(v, curve)['market_rate'])
+            if not abs((iv / x.notional - 1.0) - acc * (x.deposit_rate - mr) * dfM / dfS) <= 1e-13:
+                ctx.violation(f'{kind}: deposit value/notional - 1 is not acc x (quote - market_rate) x df(mat)/df(start)',
+                              me | {'deposit': [ds(x.start_dt), ds(x.maturity_dt)], 'value_over_notional': iv / x.notional, 'market_rate': mr},
+                              clause='deposit-rate-identity')
+            ctx.count('model/deposit-kernels', 3)
+        # ---- FRAs: generated value / maturity_df; the objective _g through the model's interpolation; rate identity
+        for x in fras_in:
+            acc = yf(x.dc_type, x.start_dt, x.maturity_dt)
+            if acc == 0.0:
+                tick('tie/zero-accrual-fra')      # IborFRA.value divides by the accrual: reported by the repricing oracle (reprice-raises)
+                continue
+            d1, d2 = fdf(curve, x.start_dt), fdf(curve, x.maturity_dt)
+            dm, dv = fdf(dsc, x.maturity_dt), fdf(dsc, v)
+            iv = float(x.value(v, dsc, curve))
+            N_ = x.notional
+            pay = 1 if x.pay_fixed_rate else 0
+            ops1.append((f'FV {f2b(acc)} {f2b(d1)} {f2b(d2)} {f2b(dm)} {f2b(dv)} {f2b(x.fra_rate)} {f2b(N_)} {pay}',
+                         model_cmp('IborFRA.value', me, iv, 1e-12, 1e-12 * abs(N_))))
+            ops1.append((f'FK {f2b(d1)} {f2b(acc)} {f2b(x.fra_rate)}', model_cmp('IborFRA.maturity_df', me, float(x.maturity_df(curve)), 1e-15, 0)))
+            if disc is None:
+                ops1.append((f'FOBJ {m} {len(Tk)} {" ".join(map(f2b, Tk))} {" ".join(map(f2b, Dk))} {f2b(yf(ISDA, v, x.start_dt))} '
+                             f'{f2b(yf(ISDA, v, x.maturity_dt))} {f2b(acc)} {f2b(x.fra_rate)} {f2b(N_)} {pay}',
+                             model_cmp('FRA objective _g on the model curve', me, iv / N_, 0, 1e-12)))
+            mr = float(x.valuation_details(v, dsc, curve)['market_rate'])
+            sg = -1.0 if x.pay_fixed_rate else 1.0
+            if not abs(iv / N_ - sg * acc * (mr - x.fra_rate) * dm / dv) <= 1e-13:
+                ctx.violation(f'{kind}: FRA value/notional is not acc x (market_rate - quote) x df(mat)/df(value date)',
+                              me | {'fra': [ds(x.start_dt), ds(x.maturity_dt)], 'value_over_notional': iv / N_, 'market_rate': mr},
+                              clause='fra-rate-identity')
+            ctx.count('model/fra-kernels', 4 if disc is None else 3)
+        # ---- swaps: the objective _f on C06's model; value = N x annuity x (par - coupon) on the implementation's own numbers
+        for x in swaps_in:
+            fl, ll = x.fixed_leg, x.float_leg
+            N_ = fl.notional
+            is_ois = isinstance(x, OIS)
+            iv = float(x.value(v, curve) if is_ois else x.value(v, dsc, curve, None))
+            idc = DayCount(curve.dc_type)
+            fper = ' '.join(f'{ser(a_)} {ser(b_)} {ser(p_)} {f2b(y_)}' for a_, b_, p_, y_ in zip(fl.start_accrued_dts, fl.end_accrued_dts, fl.payment_dts, fl.year_fracs))
+            lper = ' '.join(f'{ser(a_)} {ser(b_)} {ser(p_)} {f2b(y_)} {f2b(idc.year_frac(a_, b_)[0])}'
+                            for a_, b_, p_, y_ in zip(ll.start_accrued_dts, ll.end_accrued_dts, ll.payment_dts, ll.year_fracs))
+            ddts = [v] + list(fl.payment_dts) + list(ll.payment_dts)
+            idts = list(ll.start_accrued_dts) + list(ll.end_accrued_dts)
+            ops1.append((f'SOBJ {1 if fl.leg_type == SwapTypes.PAY else 0} {f2b(fl.cpn)} {f2b(N_)} {f2b(ll.spread)} {ser(v)} '
+                         f'{len(fl.payment_dts)} {fper} {len(ll.payment_dts)} {lper} {tbl(dsc if not is_ois else curve, ddts)} {tbl(curve, idts)}',
+                         model_cmp('swap objective _f on C06\'s model', me, iv / N_, 0, 1e-12)))
+            try:
+                p01 = float(x.pv01(v, curve if is_ois else dsc))
+                sr = float(x.swap_rate(v, curve) if is_ois else x.swap_rate(v, dsc, curve, None))
+            except Exception as ex:  # noqa: BLE001
+                ctx.violation(f'{kind}: pv01 / swap_rate of an input swap raised on the built curve', me | {'swap': ds(x.maturity_dt), 'error': type(ex).__name__},
+                              clause='swap-rate-raises')
+                continue
+            sg = 1.0 if fl.leg_type == SwapTypes.PAY else -1.0
+            if not abs(iv / N_ - sg * p01 * (sr - fl.cpn)) <= 1e-11:
+                ctx.violation(f'{kind}: swap value/notional is not pv01 x (swap_rate - coupon)',
+                              me | {'swap': ds(x.maturity_dt), 'value_over_notional': iv / N_, 'pv01': p01, 'swap_rate': sr, 'coupon': fl.cpn},
+                              clause='swap-annuity-identity')
+            if abs(iv / N_) <= TOL and not abs(sr - fl.cpn) <= TOL / p01 + 1e-12:
+                ctx.violation(f'{kind}: a repriced input swap does not have swap_rate = its coupon to tol/pv01',
+                              me | {'swap': ds(x.maturity_dt), 'swap_rate': sr, 'coupon': fl.cpn, 'pv01': p01}, clause='repriced-swap-rate')
+            ctx.count('model/swap-objective', 3)
 
     def stale_fit_only(curve, fn, tol):
         try:
@@ -320,7 +489,9 @@ def run(ctx):
             curve = None
             try:
                 pl = (list(depos), list(fras), list(swaps))
+                newton_log.clear()
                 curve = quiet(IborSingleCurve, v, pl[0], pl[1], pl[2], it)
+                solved_ids = set(newton_log)
                 unchanged('IborSingleCurve', pl, (depos, fras, swaps), d2)
             except FinError as ex:
                 tick('IborSingleCurve/rejected-by-validation: ' + str(getattr(ex, '_message', ex))[:40])
@@ -336,6 +507,8 @@ def run(ctx):
                 # non-local interpolators are refitted globally by least squares (ftol 1e-4 in rate terms, DESIGN gap): 1e-6
                 check_curve('IborSingleCurve' if bootstrap else 'IborSingleCurve(least-squares)', curve, v, instr, d2,
                             tol=TOL if bootstrap else LS_TOL, blanket=blanket)
+                if it in local and not blanket:
+                    tie_curve('IborSingleCurve', curve, v, None, depos, fras, swaps, d2, solved_ids)
                 # closed-form deposit knots as placed by the bootstrap sit at (maturity - curve date)/365
                 if bootstrap and not blanket:
                     # knots are mapped through the instruments the curve actually used (curve.used_deposits may start with the
@@ -357,7 +530,9 @@ def run(ctx):
             oc = None
             try:
                 pl = (list(depos), list(fras), list(oswaps))
+                newton_log.clear()
                 oc = quiet(OISCurve, v, pl[0], pl[1], pl[2], it)
+                solved_ids = set(newton_log)
                 unchanged('OISCurve', pl, (depos, fras, oswaps), d2)
             except FinError as ex:
                 tick('OISCurve/rejected-by-validation: ' + str(getattr(ex, '_message', ex))[:40])
@@ -370,6 +545,8 @@ def run(ctx):
                 instr += [('fra', x, (lambda c, x=x: x.value(v, c) / x.notional), [x.start_dt, x.maturity_dt]) for x in fras]
                 instr += [('swap', x, (lambda c, x=x: x.value(v, c) / x.fixed_leg.notional), [x.effective_dt] + list(x.fixed_leg.payment_dts)) for x in oswaps]
                 check_curve('OISCurve' if bootstrap else 'OISCurve(non-local sequential)', oc, v, instr, d2, blanket=blanket)
+                if it in local and not blanket:
+                    tie_curve('OISCurve', oc, v, None, depos, fras, oswaps, d2, solved_ids)
             # ------------------------------------------------------------------ IborDualCurve on top of a flat-forward OIS curve
             disc = None
             try:
@@ -381,7 +558,9 @@ def run(ctx):
             dc_ = None
             try:
                 pl = (list(depos), list(fras), list(swaps))
+                newton_log.clear()
                 dc_ = quiet(IborDualCurve, v, disc, pl[0], pl[1], pl[2], it)
+                solved_ids = set(newton_log)
                 unchanged('IborDualCurve', pl, (depos, fras, swaps), d2)
             except FinError as ex:
                 tick('IborDualCurve/rejected-by-validation: ' + str(getattr(ex, '_message', ex))[:40])
@@ -394,6 +573,8 @@ def run(ctx):
                 instr += [('fra', x, (lambda c, x=x: x.value(v, disc, c) / x.notional), [x.start_dt, x.maturity_dt]) for x in fras]
                 instr += [('swap', x, (lambda c, x=x: x.value(v, disc, c, None) / x.fixed_leg.notional), [x.effective_dt] + list(x.fixed_leg.payment_dts)) for x in swaps]
                 check_curve('IborDualCurve' if bootstrap else 'IborDualCurve(non-local sequential)', dc_, v, instr, d2, blanket=blanket)
+                if it in local and not blanket:
+                    tie_curve('IborDualCurve', dc_, v, disc, depos, fras, swaps, d2, solved_ids)
     # ---- fixed quote sets: the witnesses of the structural findings go through the same oracle on every run
     vw = Date(14, 6, 2021)
     sw_ = vw.add_weekdays(2)
@@ -402,18 +583,26 @@ def run(ctx):
             # (1) closed-form FRA (overlapping the deposit) as the last instrument
             dps = [IborDeposit(vw, '3M', 0.01, DCT.ACT_360)]
             frs = [IborFRA(vw.add_tenor('2M'), '3M', 0.02, DCT.ACT_360)]
+            newton_log.clear()
             c_ = quiet(cls_, vw, list(dps), list(frs), [], it)
+            sid_ = set(newton_log)
             ins = [('deposit', x, (lambda c, x=x: x.value(vw, c) / x.notional - 1.0), [x.start_dt, x.maturity_dt]) for x in dps]
             ins += [('fra', x, (lambda c, x=x: x.value(vw, c) / x.notional), [x.start_dt, x.maturity_dt]) for x in frs]
             check_curve(nm_, c_, vw, ins, {'valuation': ds(vw), 'spot_days': 0, 'deposit_dc': 'ACT_360', 'interp': it.name, 'witness': 'closed-form FRA last',
                                            'deposits': [[ds(x.start_dt), ds(x.maturity_dt), x.deposit_rate] for x in dps],
                                            'fras': [[ds(x.start_dt), ds(x.maturity_dt), x.fra_rate] for x in frs], 'swaps': []})
+            if it in local:
+                tie_curve(nm_, c_, vw, None, dps, frs, [], {'valuation': ds(vw), 'interp': it.name, 'witness': 'closed-form FRA last'}, sid_)
             # (2) a second deposit that starts after the first one matures
             dps = [IborDeposit(vw, '3M', 0.01, DCT.ACT_360), IborDeposit(vw.add_tenor('4M'), '3M', 0.02, DCT.ACT_360)]
+            newton_log.clear()
             c_ = quiet(cls_, vw, list(dps), [], [], it)
+            sid_ = set(newton_log)
             ins = [('deposit', x, (lambda c, x=x: x.value(vw, c) / x.notional - 1.0), [x.start_dt, x.maturity_dt]) for x in dps]
             check_curve(nm_, c_, vw, ins, {'valuation': ds(vw), 'spot_days': 0, 'deposit_dc': 'ACT_360', 'interp': it.name, 'witness': 'forward-starting deposit',
                                            'deposits': [[ds(x.start_dt), ds(x.maturity_dt), x.deposit_rate] for x in dps], 'fras': [], 'swaps': []})
+            if it in local:
+                tie_curve(nm_, c_, vw, None, dps, [], [], {'valuation': ds(vw), 'interp': it.name, 'witness': 'forward-starting deposit'}, sid_)
     # (3) spot lag without swaps (one-knot curve asked for df(settlement))
     dps = [IborDeposit(sw_, '1M', 0.02, DCT.ACT_360), IborDeposit(sw_, '3M', 0.021, DCT.ACT_360)]
     dw = {'valuation': ds(vw), 'spot_days': 2, 'deposit_dc': 'ACT_360', 'interp': 'FLAT_FWD_RATES', 'witness': 'spot lag without swaps',
@@ -441,6 +630,50 @@ def run(ctx):
             ctx.count('model/df-grid', len(ops), sample={'case': metas[len(ops) // 2], 'impl': impl[len(ops) // 2]})
         except C.DriverError as e:
             ctx.broke(f'model driver failed: {str(e)[:300]}')
+    _so.newton = _orig_newton
+    # ---- futures -> FRA conversion: generated IborFuture.futures_rate / fra_rate / convexity vs the implementation
+    from financepy.products.rates.ibor_future import IborFuture
+    frng = ctx.rng('futures')
+    for _ in range(60 if ctx.quick() else 600):
+        d_, m_, y_ = D.interesting_dates(frng, 1, 2000, 2036)[0]
+        today = Date(d_, m_, y_)
+        nfut = frng.choice([1, 2, 3, 4, 6, 8, 12])
+        fut = IborFuture(today, nfut)
+        price = frng.choice([frng.uniform(88.0, 101.5), 100.0, 99.5])
+        cvx = frng.choice([0.0, frng.uniform(-0.6, 0.6), -0.05, 0.05])
+        vol = frng.uniform(0.0, 0.03)
+        a_ = frng.choice([0.0, 1e-11, -1e-11, frng.uniform(0.005, 0.25), -frng.uniform(0.005, 0.1)])
+        mef = {'today': ds(today), 'future_number': nfut, 'price': price, 'convexity_pct': cvx, 'vol': vol, 'mean_reversion': a_}
+        fr_, ffr_ = fut.futures_rate(price), fut.fra_rate(price, cvx)
+        ops1.append((f'FUT {f2b(price)}', model_cmp('IborFuture.futures_rate', mef, fr_, 1e-15, 0)))
+        ops1.append((f'FFR {f2b(price)} {f2b(cvx)}', model_cmp('IborFuture.fra_rate', mef, ffr_, 1e-15, 0)))
+        t1_ = (fut.last_trading_dt.excel_dt - today.excel_dt) / 365.0
+        t2_ = (fut.end_of_interest_period.excel_dt - today.excel_dt) / 365.0
+        cx_ = float(fut.convexity(today, vol, a_))
+        ops1.append((f'FCX {f2b(t1_)} {f2b(t2_)} {f2b(vol)} {f2b(a_)}', model_cmp('IborFuture.convexity', mef, cx_, 1e-9, 1e-18)))
+        fra_ = fut.to_fra(price, cvx)
+        # direct oracles (Props/C01b: fra_rate = futures_rate - |convexity|/100 <= futures_rate; Ho-Lee / Hull-White convexity >= 0)
+        if not (abs(ffr_ - (fr_ - abs(cvx) / 100.0)) <= 1e-15 and ffr_ <= fr_ and fra_.fra_rate == ffr_
+                and fra_.start_dt == fut.delivery_dt and fra_.maturity_dt == fut.end_of_interest_period):
+            ctx.violation('IborFuture: fra_rate is not futures_rate - |convexity|/100 (or to_fra does not carry it / the IMM period)',
+                          mef | {'futures_rate': fr_, 'fra_rate': ffr_, 'to_fra_rate': fra_.fra_rate}, clause='futures-fra-rate')
+        # sign: proved for the Ho-Lee limit (t1, t2 >= 0) and the Hull-White branch with a > 0 (0 < t1 < t2); a < 0 by this oracle only.
+        # Within two days before an IMM date IborFuture(today, 1) is the contract whose last trading date is already past (t1 < 0,
+        # outside the hypotheses; the convexity is then slightly negative - observed, notes/C01.md): not tested for sign.
+        if t1_ < 0.0:
+            tick('futures/value-date-after-last-trading-date')
+        elif not (cx_ >= 0.0 and math.isfinite(cx_)):
+            ctx.violation('IborFuture.convexity is negative or not finite although 0 <= t1 < t2', mef | {'convexity': cx_, 't1': t1_, 't2': t2_},
+                          clause='futures-convexity-sign')
+        ctx.count('model/futures-kernels', 5)
+    # ---- Model/C01, Gen/RatesF and the C06 swap objective through Driver/C01
+    if ops1 and drivers_ok:
+        try:
+            outs = driver_parallel('C01', [o for o, _ in ops1], chunk=4000)
+            for (o, cb), ans in zip(ops1, outs):
+                cb(ans)
+        except C.DriverError as e:
+            ctx.broke(f'model driver C01 failed: {str(e)[:300]}')
     # ---- witness of the known finding (instance of Props.C01.leap_deposit_not_repriced)
     v = Date(1, 6, 2019)
     depo = IborDeposit(v, Date(1, 6, 2020), 3.0 / 97.0 / (366.0 / 360.0), DCT.ACT_360)
@@ -459,9 +692,17 @@ def run(ctx):
         'instrument valuation (legs, schedules, day counts) is C06/C15/C16\'s subject; here it is the implementation\'s own',
         'interpolation is C02\'s model; locality (interp_local) is proved there for the three local kernels; LINEAR_ONFWD_RATES '
         'and the spline types are validated by the oracles only',
+        'Props/C01d-e: the deposit loop and the closed-form FRA step need NO solver assumption; for FRAs / swaps on the solver branch '
+        'only positivity of the returned df is assumed for the structure / positivity theorems (checked: df > 0 on the grid)',
+        'Props/C01c-d: swap valuation is C06\'s hand model (tied by C06\'s correspondence and, for every swap of every curve built '
+        'with a local interpolant here, by op SOBJ); dates enter the curve through an arbitrary map date -> time',
+        'the branch a FRA takes in the implementation is observed by recording the calls of scipy.optimize.newton during the build',
     ]
-    return C.finish(ctx, 'proof', 'lake build FinVerif.Props.C01 && lake env lean .cache/audit/Audit_C01.lean',
+    return C.finish(ctx, 'proof', 'lake build ' + ' '.join(PROPS) + ' && lake env lean .cache/audit/Audit_C01.lean',
                     C.TRUSTED_BASE_COMMON + ['Model/C02.lean interpolation model (tied by C02\'s and this check\'s correspondence)',
+                                             'Model/C01.lean bootstrap skeleton (hand model; replayed against every curve built with a local '
+                                             'interpolant) and Model/C06.lean swap valuation (hand model; C06\'s correspondence + op SOBJ here); '
+                                             'Gen/RatesR = Gen/RatesF up to the number type (same AST walk)',
                                              'the abstraction Instr (value functional reading the curve on [0, maturity]) as a '
                                              'description of deposits, FRAs and swaps'], RULE)
 
